@@ -64,7 +64,10 @@ class Prop(BaseProp):
 
     def cases(self, rng, tier, config, k, K, n):
         for case in common.pair_stream(rng, tier, n, k, K, kw_fn=kw_all2):
-            third = gen.dyadic_train(rng, case["ts"], case["te"], 16, 6) if case["dyadic"] else gen.hostile_train(rng, case["ts"], case["te"], 6)
+            # (the third train lives on the case's own grid or a coarser one: at ulp-scale sampling a finer grid is not
+            # representable and would collapse into duplicate spike times, i.e. an invalid train)
+            g3 = max(2, min(16, int(round((case["te"] - case["ts"]) / case["step"])))) if case["dyadic"] else 16
+            third = gen.dyadic_train(rng, case["ts"], case["te"], g3, 6) if case["dyadic"] else gen.hostile_train(rng, case["ts"], case["te"], 6)
             case["third"] = third
             case["ij"] = [rng.randint(-1, max(-1, len(case["trains"][0]) - 1)), rng.randint(-1, max(-1, len(case["trains"][1]) - 1))]
             yield case
